@@ -210,7 +210,9 @@ func runMutantSet(verif, root string, ms []Mutant, par int) *MutantReport {
 					rw.status, rw.failure = "error", "copy: "+err.Error()
 					return
 				}
-				cmd := exec.Command("git", "apply", "--whitespace=nowarn", "--exclude=*_test.go", filepath.Join(verif, m.Patch))
+				// patch(1), not git apply: the scratch copy lives inside /verif's own git work tree, where
+				// git apply silently skips every path outside the current directory's prefix
+				cmd := exec.Command("patch", "-p1", "-s", "-f", "--no-backup-if-mismatch", "-i", filepath.Join(verif, m.Patch))
 				cmd.Dir = top
 				if out, err := cmd.CombinedOutput(); err != nil {
 					rw.status, rw.detail = "stale", "the patch no longer applies: "+firstLine(string(out))
